@@ -294,17 +294,18 @@ func newWorld(r *vf.Run, dir string, nMP int, useGRPC, conc bool) (*world, error
 	}
 	w.unknown = nMP
 	w.store = filepath.Join(dir, "fm", "fusestore.db")
-	// a regular file: a root below it makes service.NewFileSystem fail (ENOTDIR)
-	if err := os.WriteFile(filepath.Join(dir, "blocker"), []byte("x"), 0o644); err != nil {
-		return nil, err
-	}
 	curWorld.Store(w)
 	return w, nil
 }
 
-func (w *world) rootFor(tag int64, ctorFail bool) string {
-	if ctorFail {
-		return filepath.Join(w.dir, "blocker", fmt.Sprintf("root%d", tag))
+func (w *world) blocker(tag int64) string { return filepath.Join(w.dir, fmt.Sprintf("blk%d", tag)) }
+
+// rootFor is the root sent with the Init of configuration `tag`. A "blocked" root
+// lies below <case>/blk<tag>: while that is a regular file service.NewFileSystem
+// fails (ENOTDIR), once it is removed the very same root works.
+func (w *world) rootFor(tag int64, blocked bool) string {
+	if blocked {
+		return filepath.Join(w.blocker(tag), "root")
 	}
 	return filepath.Join(w.dir, fmt.Sprintf("root%d", tag%4))
 }
@@ -420,6 +421,8 @@ func (w *world) takeEvents() []fsEvent {
 
 const rpcTimeout = 120 * time.Second
 
+func undecodable(tag int64) []byte { return []byte(fmt.Sprintf(`{"Config": [%d,2`, tag)) }
+
 func (w *world) mkConfig(tag int64) *fusemanager.Config {
 	c := &fusemanager.Config{MetadataStore: "memory", IPFS: tag%2 == 1}
 	c.Config.Config.PrefetchSize = tag
@@ -432,7 +435,7 @@ func (w *world) doInit(ctx context.Context, root string, tag int64, badJSON bool
 	if !w.grpc {
 		b, _ := json.Marshal(cfg)
 		if badJSON {
-			b = []byte(`{"Config": [1,2`)
+			b = undecodable(tag)
 		}
 		_, err := w.fm.Init(ctx, &pb.InitRequest{Root: root, Config: b})
 		return err
@@ -440,7 +443,7 @@ func (w *world) doInit(ctx context.Context, root string, tag int64, badJSON bool
 	ctx, cancel := context.WithTimeout(ctx, rpcTimeout)
 	defer cancel()
 	if badJSON {
-		_, err := w.raw.Init(ctx, &pb.InitRequest{Root: root, Config: []byte(`{"Config": [1,2`)})
+		_, err := w.raw.Init(ctx, &pb.InitRequest{Root: root, Config: undecodable(tag)})
 		return err
 	}
 	// the real client of the snapshotter side: dial + Init (fusemanager/client.go)
